@@ -132,6 +132,94 @@ def cmdAddr : P String := do
   | some why => return s!"DIFF C19 {why} {feats}"
   | none => return s!"OK {feats}"
 
-def table : List (String × P String) := [("act", cmdAct), ("atoi", cmdAtoi), ("addr", cmdAddr)]
+/-! ## C13: `reg <vendor> <product> <version> <url> <n> {op} | {result per register} <info…> <k> {name kind text} <resolver…>` -/
+
+inductive ROpTok where
+  | register (n d : Bytes) | listen | open_ | close | shutdown
+
+def regOpP : P ROpTok := do
+  let k ← tok
+  match k with
+  | "register" => do let n ← bytes; let d ← bytes; pure (.register n d)
+  | "listen" => pure .listen
+  | "open" => pure .open_
+  | "close" => pure .close
+  | "shutdown" => pure .shutdown
+  | _ => throw s!"bad reg op {k}"
+
+def ROpTok.toOp : ROpTok → RegOp
+  | .register n d => .register n d
+  | .listen => .listenStarts
+  | .open_ => .connOpens
+  | .close => .connCloses
+  | .shutdown => .shutdownCompletes
+
+def regResStr : RegResult → String
+  | .ok => "ok" | .refusedDuplicate => "dup" | .refusedRunning => "running" | .noop => "noop"
+
+/-- run the history, collecting the result of every register operation -/
+def runRegOps (s : RegState) : List RegOp → RegState × List String
+  | [] => (s, [])
+  | op :: ops =>
+    let (s', r) := s.step op
+    let (sf, rs) := runRegOps s' ops
+    match op with
+    | .register _ _ => (sf, regResStr r :: rs)
+    | _ => (sf, rs)
+
+def infoBeq (a : Info) (v p ver u : Bytes) (ifs : List Bytes) : Bool :=
+  a.vendor == v && a.product == p && a.version == ver && a.url == u && a.interfaces == ifs
+
+def cmdReg : P String := do
+  let vendor ← bytes; let product ← bytes; let version ← bytes; let url ← bytes
+  let ops ← listOf regOpP
+  expect "|"
+  let nreg := (ops.filter (fun o => match o with | .register _ _ => true | _ => false)).length
+  let rec toks : Nat → P (List String)
+    | 0 => pure []
+    | k + 1 => do let t ← tok; let r ← toks k; pure (t :: r)
+  let obsRes ← toks nreg
+  let infoOk ← bool
+  let gv ← bytes; let gp ← bytes; let gver ← bytes; let gu ← bytes
+  let gi ← listOf bytes
+  let asked ← listOf (do let n ← bytes; let k ← tok; let t ← bytes; pure (n, k, t))
+  let hasResolver ← bool
+  let (sf, expRes) := runRegOps (RegState.init vendor product version url) (ops.map ROpTok.toOp)
+  let refused := expRes.any (· != "ok")
+  let feats := s!"nt={if refused then 1 else 0} ops={ops.length} regs={nreg} accepted={sf.reg.ifaces.length} asked={asked.length}"
+  if expRes != obsRes then return s!"DIFF C13 register-results model={expRes} observed={obsRes} {feats}"
+  if !infoOk then return s!"DIFF C13 getinfo-failed {feats}"
+  match clientGetInfo sf.reg with
+  | none => return s!"DIFF C13 model-getinfo-undecodable {feats}"
+  | some inf =>
+    if !infoBeq inf gv gp gver gu gi then return s!"DIFF C13 getinfo-values-differ {feats}"
+    -- the property itself on the observation: first name is org.varlink.service, no duplicates
+    if gi.head? != some orgVarlinkService then return s!"DIFF C13 first-interface-is-not-org.varlink.service {feats}"
+    if !(gi.eraseDups.length == gi.length) then return s!"DIFF C13 duplicate-interface-names {feats}"
+    let bad := asked.filter fun (n, k, t) =>
+      match clientGetDescription sf.reg n with
+      | .description d => !(k == "desc" && t == d)
+      | .invalidParameter p => !(k == "invalid" && t == p)
+    if !bad.isEmpty then
+      return s!"DIFF C13 description-differs count={bad.length} first={(bad.head?.map (fun x => encB x.1)).getD "-"} {feats}"
+    if hasResolver then
+      let js ← bytes
+      let rok ← bool
+      let rv ← bytes; let rp ← bytes; let rver ← bytes; let ru ← bytes
+      let ri ← listOf bytes
+      let resolveOk ← bool
+      match (parseDoc js) with
+      | none => return s!"DIFF C13 resolver-json-unparsable {feats}"
+      | some v =>
+        match decodeInfo (some v) with
+        | none => if rok then return s!"DIFF C13 resolver-accepted-undecodable {feats}" else return s!"OK resolver=undecodable {feats}"
+        | some inf2 =>
+          if !rok then return s!"DIFF C13 resolver-getinfo-failed {feats}"
+          if !infoBeq inf2 rv rp rver ru ri then return s!"DIFF C13 resolver-values-differ {feats}"
+          if !resolveOk then return s!"DIFF C13 resolver-resolve-failed {feats}"
+          return s!"OK resolver=1 {feats}"
+    return s!"OK resolver=0 {feats}"
+
+def table : List (String × P String) := [("act", cmdAct), ("atoi", cmdAtoi), ("addr", cmdAddr), ("reg", cmdReg)]
 
 end Driver.Misc
